@@ -40,6 +40,7 @@ Step ==
     /\ IF Ev.ev = "reset" THEN who' = {}
        ELSE IF Ev.ev = "tx:registered" THEN who' = who \cup {<<Ev.tid, Ev.tx_id>>}
        ELSE IF Ev.ev = "drop:deregistered" THEN who' = who \ {<<Ev.tid, Ev.tx_id>>}
+       ELSE IF Ev.ev = "drop:done" /\ Ev.w = 0 THEN who' = {r \in who : r[1] # Ev.tid}
        ELSE UNCHANGED who
     /\ CASE Ev.ev = "reset" ->
               reg' = <<>> /\ writer' = 0 /\ lastCommit' = Ev.txid /\ maxDone' = Ev.txid /\ wtx' = -1
@@ -72,6 +73,10 @@ Step ==
               /\ lastCommit' = Ev.tx_id /\ UNCHANGED <<reg, writer, maxDone, wtx>>
          [] Ev.ev = "commit:done" ->
               maxDone' = Ev.tx_id /\ UNCHANGED <<reg, writer, lastCommit, wtx>>
+         [] Ev.ev = "drop:done" /\ Ev.w = 0 ->
+              \* a read-only transaction that is gone must not be left in the registry (its pages would never be reused)
+              /\ Check(\A r \in who : r[1] # Ev.tid, "reader-gone-but-still-registered", <<Ev.tid, who>>)
+              /\ UNCHANGED <<reg, writer, lastCommit, maxDone, wtx>>
          [] Ev.ev = "drop:done" /\ Ev.w = 1 ->
               /\ writer' = IF writer = Ev.tid THEN 0 ELSE writer
               /\ UNCHANGED <<reg, lastCommit, maxDone, wtx>>
